@@ -7,6 +7,7 @@ import (
 	"fmt"
 	"math/big"
 	"math/rand"
+	"os"
 	"path/filepath"
 	"sort"
 	"strings"
@@ -124,6 +125,19 @@ func checkC12(c *Ctx) {
 	c.Ev.Level = "model_checking"
 	c.Ev.Rule = "HumanMC: for both prefix systems TLC generates (BigNat) the neighbourhoods of every rounding boundary (D+1/2)*M/10^d for boundary numerals D, of every precision boundary M*10^j and prefix boundary base^k, all values below 1031 and the neighbourhoods of 2^32 and 2^64, and checks that the rules are satisfiable; each value plus seeded stratified random 64-bit values goes through the real Humaner.FormatNumber; HumanJudge (exact arithmetic) judges prefix, exactness below the first prefix, decimals, half-unit bound, >=3 significant digits, <=5 characters, and monotonicity between neighbours; distinct = distinct (base, value)"
 	env := newScanEnv(c, false, true)
+	// FormatNumber as coded (integer arithmetic), for ALL 64-bit values, by Apalache: clause by clause of C12 on the
+	// transcription HumanApa (its binding to the code is HumanJudge below); runs beside the rest of the check
+	var apaWG sync.WaitGroup
+	if !quick(c) || os.Getenv("VERIF_APALACHE") != "" {
+		apaWG.Add(1)
+		go func() {
+			defer apaWG.Done()
+			apalacheProve(c, "HumanApa", "prefix / half unit / three digits / five characters / quotient fits, all n < 2^64", 40*time.Minute, false, "--length=0", "--init=Init", "--inv=Inv")
+			apalacheProve(c, "HumanApa", "control: four characters are not enough", 40*time.Minute, true, "--length=0", "--init=Init", "--inv=InvTooStrong")
+			apalacheProve(c, "HumanApa", "monotone for all n <= m < 2^64 (302 prefix/precision cases)", 60*time.Minute, false, "--length=0", "--init=Init", "--inv=InvMono")
+		}()
+	}
+	defer apaWG.Wait()
 	two64 := new(big.Int).Lsh(big.NewInt(1), 64)
 	rng := rand.New(rand.NewSource(c.Seed))
 	var all []map[string]interface{}
